@@ -17,6 +17,9 @@
 //   P  id pwkind keykind certkind api     pkcs12.Encode(key, cert, password), then ONE of: api = decode (Decode), decodeall
 //                                         (DecodeAll); decode+ca / decodeall+ca: bundle with an extra CA certificate, topem (ToPEM) with the password, wrongpw (Decode/DecodeAll with others)
 //        -> same | diff | err (decode, decodeall) ; ok | err (topem) ; err | ok (wrongpw) ; encerr
+//   PW id keykind password wrong         (passwords as hex of UTF-8) Encode with password, then Decode / DecodeAll / ToPEM with the OTHER
+//                                         password wrong: must all fail                              -> err | ok
+//   PL id keykind password               Encode then DecodeAll with the same (long) password          -> same | diff | err | encerr
 //   K  id which                           a key / certificate of the other type handed to the PKCS#7 API: must be an error,
 //                                         not a panic: which = decrypt-sm2key | decryptsm2-rsakey | encrypt-sm2cert | encryptsm2-rsacert
 //        -> err | ok
@@ -613,6 +616,43 @@ func runP(f []string) string {
 	return "BADCASE"
 }
 
+// long passwords, and wrong passwords that agree with the right one on a prefix
+func runPW(f []string) string {
+	key := p12Key(f[2])
+	pw, wrong := string(hx.UnHex(f[3])), string(hx.UnHex(f[4]))
+	data, err := pkcs12.Encode(key, rsaCerts[0], nil, pw)
+	if err != nil {
+		return "encerr"
+	}
+	if _, _, err := pkcs12.Decode(data, wrong); err == nil {
+		return "ok"
+	}
+	if _, _, err := pkcs12.DecodeAll(data, wrong); err == nil {
+		return "ok"
+	}
+	if _, err := pkcs12.ToPEM(data, wrong); err == nil {
+		return "ok"
+	}
+	return "err"
+}
+
+func runPL(f []string) string {
+	key := p12Key(f[2])
+	pw := string(hx.UnHex(f[3]))
+	data, err := pkcs12.Encode(key, rsaCerts[0], nil, pw)
+	if err != nil {
+		return "encerr"
+	}
+	k, cs, err := pkcs12.DecodeAll(data, pw)
+	if err != nil {
+		return "err"
+	}
+	if len(cs) != 1 {
+		return "diff"
+	}
+	return sameDecoded(k, cs[0].Raw, keyD(key), rsaCerts[0].Raw)
+}
+
 // a key or certificate of the other type: an error is demanded, a panic is a failure
 func runK(f []string) string {
 	content := []byte("C17 key type case")
@@ -855,6 +895,10 @@ func runCase(line string) string {
 			return runK(f)
 		case "VER":
 			return runVER(f)
+		case "PW":
+			return runPW(f)
+		case "PL":
+			return runPL(f)
 		case "SC":
 			return runSC(f)
 		case "EC":
@@ -984,6 +1028,63 @@ func gen(seed uint64, tier string) []string {
 				for _, api := range []string{"decode", "decodeall", "decode+ca", "decodeall+ca", "topem", "wrongpw"} {
 					add("P # %s %s %s %s", pk, kk, ck, api)
 				}
+			}
+		}
+	}
+	// long passwords (the BMP string of 32 characters fills one 64-byte hash block) and near-miss wrong passwords
+	mkpw := func(n int, nonASCII bool) []rune {
+		out := make([]rune, n)
+		for i := range out {
+			if nonASCII {
+				out[i] = rune(0x4e00 + r.Intn(0x4000))
+			} else {
+				out[i] = rune('a' + r.Intn(26))
+			}
+		}
+		return out
+	}
+	other := func(c rune) rune {
+		if c == 'x' {
+			return 'y'
+		}
+		if c >= 0x4e00 {
+			return c ^ 1
+		}
+		return 'x'
+	}
+	for _, nonASCII := range []bool{false, true} {
+		for _, n := range []int{1, 16, 31, 32, 33, 34, 63, 64, 65, 100} {
+			pw := mkpw(n, nonASCII)
+			add("PL # sm2 %s", hx.Hex([]byte(string(pw))))
+			var wrongs [][]rune
+			for _, k := range []int{16, 31, 32, 33, 64} { // share a prefix of k characters: the prefix alone, prefix + other tail
+				if k < n {
+					wrongs = append(wrongs, append([]rune{}, pw[:k]...))
+					w := append([]rune{}, pw...)
+					for j := k; j < n; j++ {
+						w[j] = other(w[j])
+					}
+					wrongs = append(wrongs, w)
+					w2 := append([]rune{}, pw...) // one character changed at position k
+					w2[k] = other(w2[k])
+					wrongs = append(wrongs, w2)
+				}
+			}
+			last := append([]rune{}, pw...)
+			last[n-1] = other(last[n-1])
+			wrongs = append(wrongs, last, append(append([]rune{}, pw...), 'z'), append(append([]rune{}, pw...), pw...))
+			if n > 1 {
+				wrongs = append(wrongs, pw[:n-1], pw[1:])
+			}
+			first := append([]rune{}, pw...)
+			first[0] = other(first[0])
+			wrongs = append(wrongs, first)
+			for wi, w := range wrongs {
+				kk := "sm2"
+				if wi%3 == 1 {
+					kk = "ecdsa"
+				}
+				add("PW # %s %s %s", kk, hx.Hex([]byte(string(pw))), hx.Hex([]byte(string(w))))
 			}
 		}
 	}
